@@ -48,6 +48,10 @@ type descriptor struct {
 	// DeadEnd: the activity has NO outgoing sequence flow (implicit end of the
 	// token, legal BPMN): the answer must still be stored / reported / retried
 	DeadEnd bool `json:"deadEnd,omitempty"`
+	// LoopBack: the branch taken for sel==2 leads back to the activity, which
+	// is then requested again - with task inputs (olive properties resolved
+	// from the variables) that show what the previous answer stored
+	LoopBack bool `json:"loopBack,omitempty"`
 }
 
 type built struct {
@@ -62,6 +66,7 @@ func build(d descriptor) *built {
 	a := b.Add(gen.KTask)
 	a.TaskKind = d.TaskKind
 	a.Results = append([]string(nil), d.Declared...)
+	a.Props = []string{"x:integer", "sel:integer"}
 	if d.DeclOut {
 		a.DataOutputs = []string{"out"}
 	}
@@ -74,7 +79,15 @@ func build(d descriptor) *built {
 	x := b.Add(gen.KXor)
 	b.Connect(a, x)
 	for i := 0; i < 3; i++ {
+		if d.LoopBack && i == 2 {
+			f := b.Connect(x, a)
+			f.Cond = &gen.Cond{Op: "eq", Var: "sel", K: 2}
+			f.Formal = true
+			bt.B[i] = a.ID
+			continue
+		}
 		t := b.Add(gen.KTask)
+		t.Props = []string{"x:integer", "sel:integer"}
 		en := b.Add(gen.KEnd)
 		f := b.Connect(x, t)
 		b.Connect(t, en)
@@ -159,6 +172,9 @@ func apply(d descriptor, bt *built, s state, c doCall) (state, string) {
 	}
 	branch := func(st state) string {
 		sel, _ := st.vars["sel"].(int64)
+		if sel == 2 && d.LoopBack && !d.DeadEnd {
+			return "again"
+		}
 		if sel == 1 || sel == 2 {
 			return "branch:" + bt.B[sel]
 		}
@@ -246,6 +262,26 @@ func runCase(d descriptor) *result {
 	cur := in.NewTasks()
 	if !reflect.DeepEqual(taskIDs(cur), []string{bt.A}) {
 		return fail("first-request", fmt.Sprintf("requests after start %v, want [%s]", taskIDs(cur), bt.A), nil)
+	}
+	// task inputs: the olive properties "x" and "sel" have no value of their
+	// own and are resolved from the variables at the moment of each request
+	checkInputs := func(tts []bpmn.TaskTrace, vars map[string]any, stage string) *result {
+		for _, tt := range tts {
+			props := tt.GetProperties()
+			for _, name := range []string{"x", "sel"} {
+				it, ok := props[name]
+				if !ok || it == nil {
+					return fail("inputs", fmt.Sprintf("%s: request of %v carries no property %q", stage, taskIDs([]bpmn.TaskTrace{tt}), name), nil)
+				}
+				if fmt.Sprint(it.Value()) != fmt.Sprint(vars[name]) {
+					return fail("inputs", fmt.Sprintf("%s: request of %v carries property %s=%v, the variable is %v (inputs are resolved when the task is requested)", stage, taskIDs([]bpmn.TaskTrace{tt}), name, it.Value(), vars[name]), nil)
+				}
+			}
+		}
+		return nil
+	}
+	if r := checkInputs(cur, st.vars, "first request"); r != nil {
+		return r
 	}
 	requestsOfA := 1
 	next := ""
@@ -360,6 +396,9 @@ func runCase(d descriptor) *result {
 		if !matched {
 			return fail("effect", fmt.Sprintf("attempt %d (%d Do calls, concurrent=%v): observed requests %v vars %v objects %v errorTraces %d; allowed: %s",
 				ai, len(att.Calls), att.Concurrent, gotIDs, gotVars, gotObjs, errCount, strings.Join(why, " | ")), gs)
+		}
+		if r := checkInputs(got, st.vars, fmt.Sprintf("after attempt %d", ai)); r != nil {
+			return r
 		}
 		if next == "again" {
 			cur = got
@@ -520,6 +559,25 @@ func drawDescriptor(rt *rapid.T) descriptor {
 	}
 	d.Perturb = uint64(rapid.IntRange(0, 1000).Draw(rt, "perturb"))
 	d.DeadEnd = rapid.IntRange(0, 4).Draw(rt, "deadEnd") == 0
+	if !d.DeadEnd && rapid.IntRange(0, 2).Draw(rt, "loopBack") == 0 {
+		// the activity is re-entered through the gateway: no retry answers
+		// (their budget is per token, across visits), and the last attempt leaves the loop
+		d.LoopBack = true
+		for i := range d.Attempts {
+			for j := range d.Attempts[i].Calls {
+				if d.Attempts[i].Calls[j].Kind == "retry" {
+					d.Attempts[i].Calls[j].Kind = "ok"
+				}
+			}
+		}
+		l := &d.Attempts[len(d.Attempts)-1]
+		for j := range l.Calls {
+			l.Calls[j].Kind, l.Calls[j].Sel = "ok", 1
+		}
+		if len(d.Declared) == 0 || d.Declared[0] != "sel" {
+			d.Declared = append([]string{"sel"}, d.Declared...)
+		}
+	}
 	ns := rapid.IntRange(0, 2).Draw(rt, "secondAttempts")
 	if d.DeadEnd {
 		ns = 0
